@@ -165,6 +165,114 @@ fn signer_sequence(out: &mut Out, rng: &mut Rng, seq_idx: u64) {
     }
 }
 
+/// Several signer and verifier objects alive at once, fed in interleaved order on one thread,
+/// some abandoned in the middle of a message, some moved to another thread between update()
+/// and sign(): every object must behave as if it were alone.
+fn interleaved_objects(out: &mut Out, rng: &mut Rng, idx: u64) {
+    let nobj = rng.range(2, 5) as usize;
+    let seeds: Vec<Vec<u8>> = (0..nobj).map(|i| if i > 0 && rng.chance(1, 3) { vec![7u8; 32] } else { rng.bytes(32) }).collect();
+    let r = catch_unwind(AssertUnwindSafe(|| {
+        let mut signers: Vec<MsgSigner> = seeds.iter().map(|s| MsgSigner::from_seed(s)).collect();
+        let pks: Vec<Vec<u8>> = signers.iter().map(|s| s.public_key_bytes()).collect();
+        let rounds = rng.range(1, 4);
+        for round in 0..rounds {
+            // an abandoned object: fed part of a message, then dropped without sign()
+            if rng.chance(1, 3) {
+                let mut ghost = MsgSigner::from_seed(&rng.bytes(32));
+                ghost.update(&rng.rbytes(1, 200));
+                drop(ghost);
+                out.obs("interleave_abandoned_signers", 1);
+            }
+            let msgs: Vec<Vec<u8>> = (0..nobj).map(|_| rng.rbytes(0, 300)).collect();
+            let chunks: Vec<Vec<Vec<u8>>> = msgs.iter().map(|m| chunking(rng, m).0).collect();
+            // feed the chunks of all objects in a random interleaving
+            let mut cursor = vec![0usize; nobj];
+            let mut verifiers: Vec<MsgVerifier> = Vec::new();
+            loop {
+                let pending: Vec<usize> = (0..nobj).filter(|i| cursor[*i] < chunks[*i].len()).collect();
+                if pending.is_empty() {
+                    break;
+                }
+                let i = *rng.pick(&pending);
+                signers[i].update(&chunks[i][cursor[i]]);
+                cursor[i] += 1;
+            }
+            // sign in a random order; one of the signers signs on another thread
+            let mut order: Vec<usize> = (0..nobj).collect();
+            rng.shuffle(&mut order);
+            let mut sigs: Vec<Vec<u8>> = vec![Vec::new(); nobj];
+            let moved = if rng.chance(1, 3) { Some(order[0]) } else { None };
+            for i in order {
+                if moved == Some(i) {
+                    let s = std::mem::replace(&mut signers[i], MsgSigner::from_seed(&seeds[i]));
+                    let (s, sig) = std::thread::spawn(move || {
+                        let mut s = s;
+                        let sig = s.sign();
+                        (s, sig)
+                    })
+                    .join()
+                    .expect("signing thread");
+                    signers[i] = s;
+                    sigs[i] = sig;
+                    out.obs("interleave_signed_on_other_thread", 1);
+                } else {
+                    sigs[i] = signers[i].sign();
+                }
+            }
+            for i in 0..nobj {
+                out.obs("interleaved_signatures_compared", 1);
+                let want = RefKey::from_seed(&seeds[i]).sign(&msgs[i]);
+                if sigs[i] != want {
+                    out.violation(
+                        &format!("C13 signature differs interleaved-objects moved-thread={}", moved == Some(i)),
+                        &format!("{} signer objects fed in interleaved order (round {}): object #{} (message of {} bytes) does not give the one-shot signature of its own message", nobj, round, i, msgs[i].len()),
+                        json!({"kind":"sign-interleaved","seeds":seeds.iter().map(|s| hex(s)).collect::<Vec<_>>(),"msgs":msgs.iter().map(|m| hex(m)).collect::<Vec<_>>()}),
+                    );
+                    return;
+                }
+            }
+            // verifiers: all created first, then fed interleaved, then asked in random order; a
+            // fourth of them is asked about ANOTHER object's signature and must refuse it
+            for i in 0..nobj {
+                verifiers.push(MsgVerifier::new(&pks[i]));
+            }
+            let mut cursor = vec![0usize; nobj];
+            loop {
+                let pending: Vec<usize> = (0..nobj).filter(|i| cursor[*i] < chunks[*i].len()).collect();
+                if pending.is_empty() {
+                    break;
+                }
+                let i = *rng.pick(&pending);
+                verifiers[i].update(&chunks[i][cursor[i]]);
+                cursor[i] += 1;
+            }
+            let mut order: Vec<usize> = (0..nobj).collect();
+            rng.shuffle(&mut order);
+            for i in order {
+                let j = (i + 1) % nobj;
+                let cross = rng.chance(1, 4) && (msgs[i] != msgs[j] || seeds[i] != seeds[j]);
+                let sig = if cross { &sigs[j] } else { &sigs[i] };
+                let got = verifiers[i].verify(sig);
+                let want = ed_verify(&pks[i], &msgs[i], sig);
+                out.obs("interleaved_verifications", 1);
+                if got != want {
+                    out.violation(
+                        &format!("C13 verifier {} interleaved-objects", if got { "accepts-invalid" } else { "rejects-valid" }),
+                        &format!("{} verifier objects fed in interleaved order: object #{} says {} for {} signature, one-shot verification of its own message says {}", nobj, i, got, if cross { "another object's" } else { "its own" }, want),
+                        json!({"kind":"verify-interleaved","pks":pks.iter().map(|s| hex(s)).collect::<Vec<_>>(),"msgs":msgs.iter().map(|m| hex(m)).collect::<Vec<_>>()}),
+                    );
+                    return;
+                }
+            }
+        }
+    }));
+    out.case(fnv64(&seeds[0]) ^ idx ^ 0x1e47, true);
+    if r.is_err() {
+        let p = take_panics().join(" | ");
+        out.violation(&format!("C13 signer panic interleaved-objects {}", crate::c05::panic_site(&p)), &p, json!({"kind":"sign-interleaved"}));
+    }
+}
+
 fn verify_case(out: &mut Out, pk: &[u8], chunks: &[Vec<u8>], sig: &[u8], what: &str) {
     let msg: Vec<u8> = chunks.concat();
     let want = dalek_verify(pk, &msg, sig);
@@ -314,6 +422,7 @@ fn weak_key_vectors(out: &mut Out, rng: &mut Rng) {
 }
 
 pub fn run(ctx: &Ctx, out: &mut Out) {
+    crate::inproc::install_shard_logger(ctx.shard, out);
     let mut rng = ctx.rng("C13");
     if let Some(r) = &ctx.replay {
         out.case(1, true);
@@ -350,6 +459,12 @@ pub fn run(ctx: &Ctx, out: &mut Out) {
             break;
         }
     }
+    for i in 0..ctx.share(3_000, 160_000) {
+        interleaved_objects(out, &mut rng, i);
+        if i % 64 == 0 && !ctx.time_left() {
+            break;
+        }
+    }
     if ctx.shard < 4 {
         weak_key_vectors(out, &mut rng);
     }
@@ -365,6 +480,8 @@ pub fn run(ctx: &Ctx, out: &mut Out) {
         }
     }
     out.floor("signatures_compared", 2_000);
+    out.floor("interleaved_signatures_compared", 1_000);
+    out.floor("interleaved_verifications", 1_000);
     out.floor("signatures_after_earlier_message", 500);
     out.floor("verifications", 20_000);
     out.floor("oracle_accepts", 40);
